@@ -12,7 +12,8 @@ Section Path.
   Variable hleaf : key -> V -> Hsh.
   Variable hbranch : Hsh -> Hsh -> Hsh.
   Hypothesis branch_inj : forall a b c d, hbranch a b = hbranch c d -> a = c /\ b = d.
-  Hypothesis leaf_inj : forall k v k' v', hleaf k v = hleaf k' v' -> k = k' /\ v = v'.
+  (* a leaf hash commits to key ++ value: injective among keys of EQUAL length (not across different splits) *)
+  Hypothesis leaf_inj : forall k v k' v', length k = length k' -> hleaf k v = hleaf k' v' -> k = k' /\ v = v'.
   Hypothesis leaf_not_branch : forall k v a b, hleaf k v <> hbranch a b.
   Hypothesis leaf_not_empty : forall k v, hleaf k v <> hempty.
   Hypothesis branch_not_empty : forall a b, hbranch a b <> hempty.
@@ -129,19 +130,21 @@ Section Path.
   (* INCLUSION: a verified non-empty claim (qk, v) is in the map; and any other requested key sharing the path of the
      query is absent.  ABSENCE: a verified empty claim means no key of the map lies below that node. *)
   Theorem single_query_sound : forall n (t : T) qk bm sibs,
-    wf n 0 t -> length bm <= length qk ->
+    wf n 0 t -> length qk = n -> length bm <= length qk ->
     (forall v, recompute qk bm sibs (hleaf qk v) = Some (hash t) ->
        In (qk, v) (tomap t) /\
        forall k v', In (k, v') (tomap t) -> firstn (length bm) k = firstn (length bm) qk -> k = qk /\ v' = v) /\
     (recompute qk bm sibs hempty = Some (hash t) ->
        forall k v', In (k, v') (tomap t) -> firstn (length bm) k <> firstn (length bm) qk).
   Proof.
-    intros n t qk bm sibs Hwf Hlen. split.
+    intros n t qk bm sibs Hwf Hqk Hlen. split.
     - intros v Hr. destruct (recompute_sound _ _ _ _ _ Hlen Hr) as (nd & Hs & Hh).
       assert (Hnd : nd = L qk v).
       { destruct nd as [|k0 v0|l r]; cbn [Tree.hash] in Hh.
         - symmetry in Hh. apply leaf_not_empty in Hh. contradiction.
-        - apply leaf_inj in Hh. destruct Hh; subst; reflexivity.
+        - assert (Hin0 : In (k0, v0) (tomap t)) by (eapply subtree_incl; eauto; left; reflexivity).
+          pose proof (wf_keys t n 0 (k0, v0) Hwf Hin0) as Hl0. cbn [fst Nat.add] in Hl0.
+          apply leaf_inj in Hh; [|lia]. destruct Hh; subst; reflexivity.
         - symmetry in Hh. apply leaf_not_branch in Hh. contradiction. }
       subst nd. split.
       + eapply subtree_incl; eauto. left; reflexivity.
